@@ -86,7 +86,7 @@ func c19Requests(cfgName string, confirm, jsonMode, wideWhitelist bool, dl time.
 		{"duplicated(weak,compliant)", true, "weak", "Abcdef1!"},
 	}
 	confirms := []string{"equal", "different", "missing"}
-	extraKeys := []string{"name", "is_admin", "confirmed", "locked", "recover_selector", "Name", "EMAIL"}
+	extraKeys := []string{"name", "is_admin", "confirmed", "emailx", "recover_selector", "Name", "EMAIL"}
 
 	report := func(rule, attrs, detail string, c string) {
 		if len(res.Violations) < 40 {
@@ -465,7 +465,7 @@ func c19Rules(shard, nShards, maxLen int, minima []int, dl time.Time) engine.Uni
 func init() {
 	engine.Register(&engine.Property{
 		ID: "C19", Level: "exploration",
-		Rule: "(a) complete product of registration bodies: email {new, existing, case variant, malformed, blank, missing, duplicated} x password {compliant, one class short of each minimum, 7 bytes, inner and surrounding whitespace, blank, missing, duplicated} x confirm_password {equal, different, missing} x every subset of 7 hostile extra fields (incl. whitelisted names in another letter case), from an empty table, one holding the account and (with confirm) one holding it unconfirmed with its token outstanding, with/without confirm, form/JSON, two whitelists, against a reference validator, and for every valid request (and the plain invalid ones) each backend call failed in turn (safety half only); (b) Rules.IsValid against an independent reference for every string up to the tier's length over {A,a,1,!,space,TAB,LF} x a grid of rule settings; classes = (validity class, email class, password class) triples",
+		Rule: "(a) complete product of registration bodies: email {new, existing, case variant, malformed, blank, missing, duplicated} x password {compliant, one class short of each minimum, 7 bytes, inner and surrounding whitespace, blank, missing, duplicated} x confirm_password {equal, different, missing} x every subset of 7 hostile extra fields (incl. a name that extends a whitelisted one and whitelisted names in another letter case), from an empty table, one holding the account and (with confirm) one holding it unconfirmed with its token outstanding, with/without confirm, form/JSON, two whitelists, against a reference validator, and for every valid request (and the plain invalid ones) each backend call failed in turn (safety half only); (b) Rules.IsValid against an independent reference for every string up to the tier's length over {A,a,1,!,space,TAB,LF} x a grid of rule settings; classes = (validity class, email class, password class) triples",
 		Units: func(tier string) []engine.Unit {
 			var us []engine.Unit
 			for _, confirm := range []bool{false, true} {
